@@ -540,3 +540,39 @@ Example C17_ex_bridge_conversation :
           encode_nl (frame_of_msg (ReportState 3 Unconfigured)) ++ encode_nl (frame_of_msg (ReportState 3 ConfigReceived)),
           [58]).
 Proof. vm_compute. reflexivity. Qed.
+
+(* ---------- a whole conversation carried over the wire ---------- *)
+(* The controller's serial bus says [ms], one after the other; the bus behind the bridge answers [answers] (an answer exactly
+   for the messages that expect one).  Then, however the four byte streams fragment and interrupt (short of failing): the
+   bridge forwards exactly [ms], in order, and writes back exactly the answers' frames; the controller's calls return
+   exactly [answers], in order; nothing is left unread on either side. *)
+Theorem C17_wire_conversation : forall ms answers ws1 rs1 ws2 rs2,
+  Forall2 (fun m a => specific m /\ wf_msg m
+                      /\ match a with
+                         | Some r => response_expected m = true /\ specific r /\ wf_msg r
+                         | None => response_expected m = false
+                         end) ms answers ->
+  clean_w ws1 -> clean_r rs1 -> clean_w ws2 -> clean_r rs2 ->
+  exists pb pc,
+    odk_run {| pt_in := {| r_content := concat (map (fun m => encode_nl (frame_of_msg m)) ms); r_sched := rs2 |};
+               pt_out := {| w_out := []; w_sched := ws2 |} |} answers
+    = Some (map (fun m => (Ok tt, Some m)) ms, pb)
+    /\ w_out (pt_out pb) = answers_written answers
+    /\ r_content (pt_in pb) = []
+    /\ serial_run ms {| pt_in := {| r_content := w_out (pt_out pb); r_sched := rs1 |};
+                        pt_out := {| w_out := []; w_sched := ws1 |} |}
+       = Some (map (fun a => Ok a) answers, pc)
+    /\ w_out (pt_out pc) = concat (map (fun m => encode_nl (frame_of_msg m)) ms)
+    /\ r_content (pt_in pc) = [].
+Proof. exact wire_conversation. Qed.
+Print Assumptions C17_wire_conversation.
+
+Example C17_ex_wire_conversation :
+  Forall2 (fun m a => specific m /\ wf_msg m
+                      /\ match a with
+                         | Some r => response_expected m = true /\ specific r /\ wf_msg r
+                         | None => response_expected m = false
+                         end)
+          [Hello 3; SendData 0 [1; 2]; QueryState 3]
+          [Some (ReportState 3 Unconfigured); None; Some (ReportState 3 ConfigReceived)].
+Proof. repeat constructor. Qed.
